@@ -3,6 +3,7 @@ package homescript
 import (
 	"context"
 	"fmt"
+	"strings"
 
 	"github.com/smarthome-go/homescript/v3/homescript/analyzer/ast"
 
@@ -493,4 +494,107 @@ func cvIntsWithin53(v *cvv) bool {
 		r = herrors.VerifAnd(r, cvIntsWithin53(c))
 	}
 	return r
+}
+
+// VerifHarness_DisplaySpine: both value libraries render the same text for chains of D containers (one-element list,
+// Some, one-field object, two-field object) around a leaf, where multi-line renderings nest (an object below a list
+// below an object ...), and for a string leaf that contains a line break.
+func VerifHarness_DisplaySpine() {
+	d := herrors.VerifParam("depth", 3)
+	v := cvGenDisplaySpine(d, "v")
+	herrors.VerifTag("shape", v.String())
+	var dv, dt string
+	p, msg := herrors.VerifPanics(func() {
+		dv, _ = (*v.vmD()).Display()
+		dt, _ = (*v.treeD()).Display()
+	})
+	if p {
+		herrors.VerifTag("panic", herrors.VerifNorm(msg))
+	}
+	herrors.VerifAssert("display-no-panic", !p)
+	if p {
+		return
+	}
+	herrors.VerifReached("displayed")
+	herrors.VerifAssert("both-runtimes-render-the-same-text", dv == dt)
+	// an independent check of the layout: every line break of the rendering is followed by the indentation of its depth
+	herrors.VerifAssert("rendering-is-the-layout-of-the-reference", dv == cvRefDisplay(v))
+}
+
+// leaf kinds: 'i' (concrete 7), 'm' multi-line string
+func cvGenDisplaySpine(depth int, name string) *cvv {
+	if depth == 0 {
+		if herrors.VerifNdIntRange(name+"_leaf", 0, 1) == 0 {
+			return &cvv{k: 'i', i: 7}
+		}
+		return &cvv{k: 'm'}
+	}
+	switch herrors.VerifNdIntRange(name+"_c", 0, 3) {
+	case 0:
+		return &cvv{k: 'l', kids: []*cvv{cvGenDisplaySpine(depth-1, name+"_0")}}
+	case 1:
+		return &cvv{k: 'S', kids: []*cvv{cvGenDisplaySpine(depth-1, name+"_in")}}
+	case 2:
+		return &cvv{k: 'o', keys: []string{"a"}, kids: []*cvv{cvGenDisplaySpine(depth-1, name+"_a")}}
+	}
+	return &cvv{k: 'o', keys: []string{"a", "b"}, kids: []*cvv{cvGenDisplaySpine(depth-1, name+"_a"), {k: 'i', i: 7}}}
+}
+
+func (v *cvv) vmD() *vvalue.Value {
+	switch v.k {
+	case 'i':
+		return vvalue.NewValueInt(v.i)
+	case 'm':
+		return vvalue.NewValueString("x\ny")
+	case 'l':
+		return vvalue.NewValueList([]*vvalue.Value{v.kids[0].vmD()})
+	case 'S':
+		return vvalue.NewValueOption(v.kids[0].vmD())
+	}
+	f := map[string]*vvalue.Value{}
+	for i, k := range v.keys {
+		f[k] = v.kids[i].vmD()
+	}
+	return vvalue.NewValueObject(f)
+}
+
+func (v *cvv) treeD() *ivalue.Value {
+	switch v.k {
+	case 'i':
+		return ivalue.NewValueInt(v.i)
+	case 'm':
+		return ivalue.NewValueString("x\ny")
+	case 'l':
+		return ivalue.NewValueList([]*ivalue.Value{v.kids[0].treeD()})
+	case 'S':
+		return ivalue.NewValueOption(v.kids[0].treeD())
+	}
+	f := map[string]*ivalue.Value{}
+	for i, k := range v.keys {
+		f[k] = v.kids[i].treeD()
+	}
+	return ivalue.NewValueObject(f)
+}
+
+// cvRefDisplay: objects render as "{\n" + fields (sorted, each "    key: value" with the value's inner line breaks
+// indented by four more spaces, separated by ",\n") + "\n}"; lists as [a, b]; options as Some(x); strings as their text.
+func cvRefDisplay(v *cvv) string {
+	switch v.k {
+	case 'i':
+		return fmt.Sprint(v.i)
+	case 'm':
+		return "x\ny"
+	case 'l':
+		return "[" + cvRefDisplay(v.kids[0]) + "]"
+	case 'S':
+		return "Some(" + cvRefDisplay(v.kids[0]) + ")"
+	}
+	out := "{\n"
+	for i, k := range v.keys {
+		if i > 0 {
+			out += ",\n"
+		}
+		out += "    " + k + ": " + strings.ReplaceAll(cvRefDisplay(v.kids[i]), "\n", "\n    ")
+	}
+	return out + "\n}"
 }
